@@ -13,7 +13,10 @@ rmdir "$wt"
 git -C /repo worktree add -q --detach "$wt" HEAD || exit 3
 cleanup() { git -C /repo worktree remove --force "$wt" 2>/dev/null; rm -rf "$wt"; git -C /repo worktree prune; }
 trap cleanup EXIT
-if ! git -C "$wt" apply "$patch"; then echo "PATCH-DOES-NOT-APPLY"; exit 3; fi
+if ! git -C "$wt" apply "$patch" 2>/dev/null; then
+  # the tree moved on since the change was written (later fix commits): fall back to a three-way application
+  if ! (git -C "$wt" apply --3way "$patch" >/dev/null 2>&1 && git -C "$wt" reset -q); then echo "PATCH-DOES-NOT-APPLY"; exit 3; fi
+fi
 rc=0
 if [ $runtests = 1 ]; then
   out=$(cd "$wt" && PYTHONPATH="$wt/src" /venv/bin/python -m pytest -q -p no:cacheprovider -x 2>&1 | tail -3)
